@@ -50,7 +50,7 @@ def showProps (ps : List Doc) (keep : Bool) : String :=
   let parts := if keep then parts else sortBy (fun a b => a < b) parts
   if parts.isEmpty then "-" else ";".intercalate parts
 
-def stateEq (a b : Shard) (keys : List String) : Bool := keys.all fun k => top a k == top b k
+def stateEq (a b : Shard) (keys : List String) : Bool := keys.all fun k => topLast a k == topLast b k
 
 def leafCount (s : Shard) (keys : List String) : Nat := (keys.filter fun k => (top s k).isSome).length
 
